@@ -1,6 +1,6 @@
 import Mhd.Model.ConnMem
 import Mhd.Model.NoSpace
-import Mhd.Model.ConnRead
+import Mhd.Model.ConnReadCfg
 import Driver.Common
 open Mhd.ConnMem Mhd.Pool Driver
 
@@ -52,42 +52,7 @@ def showCR (x : CR) : String :=
   | .fault f => s!"ph=fault {repr f}"
   | .refused n => s!"ph=refused {n}"
 
-/-- the fields of the request as C03's framing decision wants them -/
-def fieldsOf (buf : Mhd.Req.Bytes) (elems : List Mhd.Req.Elem) : List Mhd.Framing.Field :=
-  elems.filterMap fun e =>
-    if e.kind == Mhd.Gen.Http.kindHeader then
-      let sl (x : Mhd.Req.Slice) : List UInt8 := (buf.extract x.off (x.off + x.len)).toList
-      some ⟨sl e.key, (e.value.map sl).getD []⟩
-    else none
-
-/-- `MHD_IS_HTTP_VER_1_1_COMPAT` on the version string `HTTP/1.x` -/
-def http11Of (buf : Mhd.Req.Bytes) (version : Nat) : Bool :=
-  buf.getD (version + 5) 0 == 49 && buf.getD (version + 7) 0 != 48
-
-def cookieName : List UInt8 := [67, 111, 111, 107, 105, 101]
-
-/-- the decisions of `parse_connection_headers` (C03: `decideBody`) and `keepalive_possible`, the
-    take pattern of the scripted access handler -/
-def mkCfg (lvl : Int) (pat : List Nat) : Mhd.ConnRead.Cfg :=
-  { frame := fun buf rq =>
-      let fs := fieldsOf buf rq.elems
-      if (Mhd.Framing.lookup fs cookieName).isSome then .stop
-      else match Mhd.Framing.decideBody lvl (http11Of buf rq.version) fs with
-        | .none => .none
-        | .len n => .len n
-        | .chunked _ => .chunked
-        | .reject st => .reject st,
-    keepAlive := fun buf rq =>
-      let fs := fieldsOf buf rq.elems
-      let h11 := http11Of buf rq.version
-      let mustClose := match Mhd.Framing.decideBody lvl h11 fs with
-        | .chunked mc => mc
-        | _ => false
-      if mustClose then false
-      else if Mhd.Framing.lookupToken fs Mhd.Gen.Framing.hdrConnection Mhd.Gen.Framing.tokClose then false
-      else if !h11 then Mhd.Framing.lookupToken fs Mhd.Gen.Framing.hdrConnection Mhd.Gen.Framing.tokKeepAlive
-      else true,
-    take := fun k _ => if pat.isEmpty then 1000000000 else pat.getD (k % pat.length) 0 }
+open Mhd.ConnRead (mkCfg)
 
 structure DS where
   cm : CM
@@ -112,6 +77,9 @@ def stepCR (x : Mhd.ConnRead.CR) (pat : List Nat) (ws : List String) : Option (M
     match parsePat pt with
     | some l => ini ps inc lvl l
     | none => some (x, pat, ["bad-op"])
+  | ["crfill", v] =>
+    -- harness only: the byte written behind the fill level; the model never looks there
+    if v == "off" || (match v.toNat? with | some n => n < 256 | none => false) then some (x, pat, ["ok"]) else some (x, pat, ["bad-op"])
   | ["crfeed", hex] =>
     match bytesOfHex hex with
     | some bs => let x1 := Mhd.ConnRead.feed (mkCfg x.lvl pat) x bs; some (x1, pat, [showCR x1])
